@@ -7,7 +7,7 @@
    STL and teletext the property is decided on the implementation by the harness (structure-aware mutation
    under recover() and a watchdog), which is exploration, not proof. *)
 From Coq Require Import List NArith.
-From Astisub Require Import Kit.Base Kit.Scan Model.Srt Proofs.SrtIOProofs.
+From Astisub Require Import Kit.Base Kit.Scan Model.Srt Model.Vtt Proofs.SrtIOProofs Proofs.VttIOProofs.
 Import ListNotations.
 
 Theorem C08_srt_reader_total : forall (ls : list (list N)) (scan_err : bool) (p : N), read_srt_lines ls scan_err <> Panic p.
@@ -20,6 +20,14 @@ Proof. exact write_srt_no_panic. Qed.
 Example C08_srt_missing_end : read_srt [48;48;58;48;48;58;48;49;44;48;48;48;32;45;45;62]%N = Err EParse.
 Proof. vm_compute. reflexivity. Qed.
 
+(* WebVTT reader (any token list, hence any bytes under any schedule) and writer (any document value) *)
+Theorem C08_vtt_reader_total : forall (ls : list (list N)) (scan_err : bool) (p : N), read_vtt_lines ls scan_err <> Panic p.
+Proof. exact read_vtt_lines_no_panic. Qed.
+Theorem C08_vtt_writer_total : forall d so ro (p : N), write_vtt d so ro <> Panic p.
+Proof. exact write_vtt_no_panic. Qed.
+
 Print Assumptions C08_srt_reader_total.
 Print Assumptions C08_srt_reader_total_bytes.
 Print Assumptions C08_srt_writer_total.
+Print Assumptions C08_vtt_reader_total.
+Print Assumptions C08_vtt_writer_total.
